@@ -42,6 +42,7 @@ func Check() *core.Check {
 			"indices written to Go slice wrappers stay <= 40 (a[hugeIndex]=v grows the Go slice by construction)",
 			"numbers written to 64-bit integer locations stay below 2^62 in magnitude (larger ones are C05's subject)",
 			"Go-side writes are in place (no re-slicing behind the wrappers), strings are valid UTF-8, map keys are not NaN",
+			"no two locations of one Go value share a backing array of compound elements (script never copies such a slice header between locations)",
 			"host methods of the catalogue never panic; a panicking host function is a foreign panic (C14)",
 			"the minimal neighbourhood of each listed known finding is excluded from random generation until its pinned witness passes (see pinned.go)",
 		},
